@@ -197,7 +197,7 @@ func init() {
 							break
 						}
 					}
-					if vh.IsSim && time.Since(t0) != 0 {
+					if vh.IsSim && vh.Took(time.Since(t0)) {
 						vh.FlagAnomaly()
 					}
 					sys.Close()
@@ -274,7 +274,7 @@ func init() {
 					ops = append(ops, "to-tick+100ms")
 					o.Obs("ops_tick", 1)
 					k = r.Intn(3) // followed by an ejection
-				} else if vh.IsSim && time.Since(t0) != 0 {
+				} else if vh.IsSim && vh.Took(time.Since(t0)) {
 					vh.FlagAnomaly()
 				}
 				t0 = time.Now()
@@ -387,7 +387,7 @@ func init() {
 						}
 					}
 				}
-				if instant && vh.IsSim && time.Since(t0) != 0 {
+				if instant && vh.IsSim && vh.Took(time.Since(t0)) {
 					vh.FlagAnomaly()
 				}
 			}
